@@ -13,6 +13,8 @@ import (
 	"sort"
 	"strconv"
 	"strings"
+	"sync"
+	"sync/atomic"
 	"time"
 
 	"github.com/CloudyKit/jet/v6"
@@ -340,7 +342,56 @@ type c02outcome struct {
 	pan interface{}
 }
 
+// c02storm: lookups never hang while other goroutines edit other entries of the same in-memory loader.
+func c02storm(c *fw.Ctx, idx int) {
+	c.Begin(idx, map[string]interface{}{"class": "lookups-during-loader-edits", "readers": 6, "editors": 3, "iterations": 150})
+	defer c.End()
+	loader := jet.NewInMemLoader()
+	loader.Set("/t.jet", `{{extends "/base.jet"}}{{block b()}}x{{end}}`)
+	loader.Set("/base.jet", `B{{yield b()}}`)
+	set := jet.NewSet(loader, jet.InDevelopmentMode())
+	var wg sync.WaitGroup
+	var bad atomic.Value
+	for g := 0; g < 9; g++ {
+		wg.Add(1)
+		go func(g int) {
+			defer wg.Done()
+			for i := 0; i < 150; i++ {
+				if g >= 6 {
+					p := fmt.Sprintf("/edit/e%d.jet", (g+i)%4)
+					if i%2 == 0 {
+						loader.Set(p, "e")
+					} else {
+						loader.Delete(p)
+					}
+					continue
+				}
+				if t, err := set.GetTemplate("/t.jet"); err != nil || t == nil {
+					bad.Store(fmt.Sprintf("GetTemplate(/t.jet) = %v, %v while unrelated entries were edited", t != nil, err))
+				}
+			}
+		}(g)
+	}
+	done := make(chan struct{})
+	go func() { wg.Wait(); close(done) }()
+	select {
+	case <-done:
+	case <-time.After(8 * time.Second):
+		c.Violation("c02:hang:lookups-during-loader-edits", "", "9 goroutines (6 looking /t.jet up on a development-mode Set, 3 setting and deleting other entries of its in-memory loader) did not finish within 8s (normal: <50ms)")
+		c.AbortWorker()
+	}
+	c.Count("parses", 900)
+	c.Count("class_lookups-during-loader-edits", 1)
+	if b := bad.Load(); b != nil {
+		c.Violation("c02:lookup-failed-during-loader-edits", "", b.(string))
+	}
+}
+
 func c02run(c *fw.Ctx, idx int) {
+	if idx%211 == 3 {
+		c02storm(c, idx)
+		return
+	}
 	cs := c02build(c, idx)
 	if cs.Cyclic && (c.Tier == "quick" && idx%89 != 0 || c.Tier == "thorough" && idx%97 != 0) {
 		// every cyclic case kills its worker (known finding K1): sample them in the quick tier
